@@ -9,6 +9,7 @@ package varmq
 import (
 	"encoding/json"
 	"github.com/goptics/varmq/internal/helpers"
+	"github.com/goptics/varmq/internal/queues"
 	"context"
 	"errors"
 	"fmt"
@@ -265,6 +266,34 @@ func jobCfg(id string, key int) []JobConfigFunc {
 	return []JobConfigFunc{WithJobId(id)}
 }
 
+// gate-instrumented queues (queue kinds "wfifo" / "wprio", bound with WithQueue / WithPriorityQueue): the library's own in-memory
+// queue behind a wrapper whose Len, Dequeue and Enqueue are scheduling points of the gate.  Every place where the library reads
+// a queue length or takes a job out (the event loop's condition, releaseWaiters, freePoolNode, WaitUntilFinished, the strategies,
+// Purge, NumPending) thereby becomes a point at which the other goroutines can be interleaved.
+type gateQueue struct {
+	IQueue
+	ep *episode
+}
+
+func (q *gateQueue) Len() int             { q.ep.g.point("q.len"); return q.IQueue.Len() }
+func (q *gateQueue) Dequeue() (any, bool) { q.ep.g.point("q.deq"); return q.IQueue.Dequeue() }
+func (q *gateQueue) Enqueue(item any) bool {
+	q.ep.g.point("q.enq")
+	return q.IQueue.Enqueue(item)
+}
+
+type gatePrioQueue struct {
+	IPriorityQueue
+	ep *episode
+}
+
+func (q *gatePrioQueue) Len() int             { q.ep.g.point("q.len"); return q.IPriorityQueue.Len() }
+func (q *gatePrioQueue) Dequeue() (any, bool) { q.ep.g.point("q.deq"); return q.IPriorityQueue.Dequeue() }
+func (q *gatePrioQueue) Enqueue(item any, priority int) bool {
+	q.ep.g.point("q.enq")
+	return q.IPriorityQueue.Enqueue(item, priority)
+}
+
 func (ep *episode) setup() {
 	c := ep.prog.Cfg
 	cfg := workerConfigs(c, ep)
@@ -279,8 +308,11 @@ func (ep *episode) setup() {
 		ep.g.mu.Unlock()
 		ep.bind = func(kind string) *hQueue {
 			switch kind {
-			case "fifo":
+			case "fifo", "wfifo":
 				q := b.BindQueue()
+				if kind == "wfifo" {
+					q = b.WithQueue(&gateQueue{queues.NewQueue[iErrorJob[int]](), ep})
+				}
 				iq := q.(*errorQueue[int]).internalQueue
 				return &hQueue{kind: kind, purge: q.Purge, close: q.Close, pending: q.NumPending, values: iq.Values,
 					add: func(key, prio int, id string) (*hJob, bool) {
@@ -294,8 +326,11 @@ func (ep *episode) setup() {
 						g := q.AddAll(items)
 						return &hBatch{pending: g.NumPending, wait: g.Wait, errs: g.Errs(), drain: g.Drain}
 					}}
-			case "prio":
+			case "prio", "wprio":
 				q := b.BindPriorityQueue()
+				if kind == "wprio" {
+					q = b.WithPriorityQueue(&gatePrioQueue{queues.NewPriorityQueue[iErrorJob[int]](), ep})
+				}
 				iq := q.(*errorPriorityQueue[int]).internalQueue
 				return &hQueue{kind: kind, purge: q.Purge, close: q.Close, pending: q.NumPending, values: iq.Values,
 					add: func(key, prio int, id string) (*hJob, bool) {
@@ -322,8 +357,11 @@ func (ep *episode) setup() {
 		ep.g.mu.Unlock()
 		ep.bind = func(kind string) *hQueue {
 			switch kind {
-			case "fifo":
+			case "fifo", "wfifo":
 				q := b.BindQueue()
+				if kind == "wfifo" {
+					q = b.WithQueue(&gateQueue{queues.NewQueue[iResultJob[int, int]](), ep})
+				}
 				iq := q.(*resultQueue[int, int]).internalQueue
 				return &hQueue{kind: kind, purge: q.Purge, close: q.Close, pending: q.NumPending, values: iq.Values,
 					add: func(key, prio int, id string) (*hJob, bool) {
@@ -337,8 +375,11 @@ func (ep *episode) setup() {
 						g := q.AddAll(items)
 						return &hBatch{pending: g.NumPending, wait: g.Wait, results: g.Results(), drain: g.Drain}
 					}}
-			case "prio":
+			case "prio", "wprio":
 				q := b.BindPriorityQueue()
+				if kind == "wprio" {
+					q = b.WithPriorityQueue(&gatePrioQueue{queues.NewPriorityQueue[iResultJob[int, int]](), ep})
+				}
 				iq := q.(*resultPriorityQueue[int, int]).internalQueue
 				return &hQueue{kind: kind, purge: q.Purge, close: q.Close, pending: q.NumPending, values: iq.Values,
 					add: func(key, prio int, id string) (*hJob, bool) {
@@ -373,8 +414,11 @@ func (ep *episode) setup() {
 		ep.g.mu.Unlock()
 		ep.bind = func(kind string) *hQueue {
 			switch kind {
-			case "fifo":
+			case "fifo", "wfifo":
 				q := b.BindQueue()
+				if kind == "wfifo" {
+					q = b.WithQueue(&gateQueue{queues.NewQueue[iJob[int]](), ep})
+				}
 				iq := q.(*queue[int]).internalQueue
 				return &hQueue{kind: kind, purge: q.Purge, close: q.Close, pending: q.NumPending, values: iq.Values,
 					add: func(key, prio int, id string) (*hJob, bool) {
@@ -388,8 +432,11 @@ func (ep *episode) setup() {
 						g := q.AddAll(items)
 						return &hBatch{pending: g.NumPending, wait: g.Wait}
 					}}
-			case "prio":
+			case "prio", "wprio":
 				q := b.BindPriorityQueue()
+				if kind == "wprio" {
+					q = b.WithPriorityQueue(&gatePrioQueue{queues.NewPriorityQueue[iJob[int]](), ep})
+				}
 				iq := q.(*priorityQueue[int]).internalQueue
 				return &hQueue{kind: kind, purge: q.Purge, close: q.Close, pending: q.NumPending, values: iq.Values,
 					add: func(key, prio int, id string) (*hJob, bool) {
